@@ -137,7 +137,7 @@ def _reaches(root, t):
 
 
 # ------------------------------------------------------------------------------------------ (ii) histories
-ACTIONS = ["B0", "B1", "BR", "K0", "K1", "K2", "K3", "K4", "R0", "R2", "E", "X", "Za", "ZM", "ZO"]
+ACTIONS = ["B0", "B1", "BR", "K0", "K1", "K2", "K3", "K4", "KL", "R0", "R2", "E", "X", "Za", "ZM", "ZO"]
 
 
 class HistCase:
@@ -177,6 +177,25 @@ class HistCase:
                         out.rejected = "history not applicable"
                         return out
                     reg += [t for _, t in template(2, a, b, prev=reg[0])]
+                elif act == "KL":       # a leaf used as the root: the seed is accumulated into it, nothing else is touched
+                    g = env.arr("g%d" % ng, b.shape, lo=-2, hi=2)
+                    ng += 1
+                    others = [(j, t, None if gradof(t) is None else snapshot(gradof(t))) for j, t in enumerate(reg)]
+                    a_before = None if gradof(a) is None else snapshot(gradof(a))
+                    b.backward(Tn(g))
+                    if env.sym:
+                        cur = acc["b"] if acc["b"] is not None else [S(sc.const(0))] * 2
+                        acc["b"] = [c + gi for c, gi in zip(cur, g.view(np.ndarray).reshape(-1))]
+                    for j, t, snap in others:
+                        if snap is None:
+                            out.fact("tensor %d untouched by backward from a leaf (action %d)" % (j, step), gradof(t) is None)
+                        else:
+                            out.pair("tensor %d untouched by backward from a leaf (action %d)" % (j, step),
+                                     snapshot(gradof(t)) if gradof(t) is not None else np.zeros(0), snap)
+                    if a_before is None:
+                        out.fact("the other leaf untouched by backward from a leaf (action %d)" % step, gradof(a) is None)
+                    else:
+                        out.pair("the other leaf untouched by backward from a leaf (action %d)" % step, snapshot(gradof(a)), a_before)
                 elif act[0] == "K":
                     i = int(act[1])
                     if i >= len(reg):
@@ -199,7 +218,7 @@ class HistCase:
                             out.fact("unreachable tensor %d untouched by action %d" % (j, step), gradof(t) is None)
                         else:
                             out.pair("unreachable tensor %d untouched by action %d" % (j, step),
-                                     gradof(t) if gradof(t) is not None else np.zeros(0), snap)
+                                     snapshot(gradof(t)) if gradof(t) is not None else np.zeros(0), snap)
                 elif act[0] == "R":
                     i = int(act[1])
                     if i >= len(reg):
@@ -343,6 +362,10 @@ def _plain_reference(case, point):
         if act in ("B0", "B1", "BR"):
             builds.append(act)
             nreg += {"B0": 2, "B1": 3, "BR": 2}[act]
+        elif act == "KL":
+            g = _g(point, "g%d" % ng, (2,))
+            ng += 1
+            acc["b"] = g + (acc["b"] if acc["b"] is not None else 0.0)
         elif act[0] == "K":
             i = int(act[1])
             a_ = Tn(av.copy(), requires_grad=True)
@@ -384,6 +407,8 @@ def valid_history(h):
             nreg += 2
         elif act == "B1":
             nreg += 3
+        elif act == "KL":
+            pass
         elif act[0] in "KR":
             if int(act[1]) >= nreg:
                 return False
